@@ -36,7 +36,7 @@ def make_case(rng, i, tier):
     route = rng.choice(["split_q", "split_noq", "direct", "raw"])
     pc = gen.piece(rng, ntracks=cfg["tracks"], lens=gen.DEFAULT_NOTE_VALUES, ongrid=GRID, ragged=(route != "raw"), keys=False,
                    cross_bars=(route not in ("direct", "raw")) and rng.random() < 0.5, meta=0, nseg=(1, 3), nbars=(1, 3), max_notes=7,
-                   sigs=[(4, 4), (3, 4), (6, 8), (2, 4), (5, 4), (2, 2), (7, 8), (3, 8)], pitches=(60, 62, 72))
+                   sigs=[(4, 4), (3, 4), (6, 8), (2, 4), (5, 4), (2, 2), (7, 8), (3, 8), (8, 8), (8, 8), (12, 8)], pitches=(60, 62, 72))
     if route == "direct" and rng.random() < 0.6:
         # bars filled by a single note held from the first tick to the bar line (the bar's last message is a note-off on the
         # bar line, there is no trailing rest and every onset sits on the first tick), followed by ordinary bars
